@@ -149,10 +149,10 @@ class LevyDrivenSDEModel(Model):
         :param a: SDE Function h (FIXME change of notation might be a bit confusing)
         """
         super().__init__()
-        self._m = 1 if isinstance(x0, Number) else x0.size
+        # the schemes update the state in place: the initial value is stored as floats (an integer or a list is accepted)
+        self.x0 = np.atleast_1d(np.asarray(x0, dtype=float))
+        self._m = self.x0.size
         self._d = driver.dimension()
-
-        self.x0 = np.atleast_1d(x0)
         self.a = a or Constant(m=self._m, d=self._d)
         self.driver = driver
 
